@@ -6,6 +6,7 @@
  * LineSched    - runs random thread programs under a deterministic line-level scheduler (sys.settrace on
                   config.py) and records one event per quantum.
 """
+from harness import REPO as _REPO
 import importlib
 import os
 import queue
@@ -19,8 +20,8 @@ INT_IDENT = {v: k for k, v in IDENT_INT.items()}
 
 
 def load_config_module():
-    if "/repo" not in sys.path:
-        sys.path.insert(0, "/repo")
+    if _REPO not in sys.path:
+        sys.path.insert(0, _REPO)
     import sqllineage.config as cfgmod
     return cfgmod
 
